@@ -54,7 +54,7 @@ PROPS['C09'] = {
 PROPS['C06'] = {
     'module': 'SuironVerif.Props.C06',
     'theorems': ['Suiron.C06.unify_extends', 'Suiron.C06.unify_result_wf', 'Suiron.C06.unify_general', 'Suiron.C06.unify_no_false_failure',
-                 'Suiron.C06.unify_keeps_wf', 'Suiron.C06.failure_means_no_unifier'],
+                 'Suiron.C06.unify_keeps_wf', 'Suiron.C06.failure_means_no_unifier', 'Suiron.C06.unify_sound', 'Suiron.C06.unify_mgu'],
     'oracles': ['C06'],
     'suites': {
         'quick': unify_runs('C06', 4000, [[], ['--anon']], exhaustive=[([], 1)]),
@@ -64,10 +64,11 @@ PROPS['C06'] = {
     'rule': U_RULE,
     'design_ref': '5.6',
     'assumptions': [
-        "PARTIAL: proved are E (earlier bindings kept), G (every unifier validating the prior set validates the result: no more is bound than by an mgu), C (no false "
-        "failure: a reported failure means no unifier extends the prior set) and the preservation of well-formedness, all against the first-order reading of "
-        "Spec/FOSubst.lean (tail-variable cells denote their variable, counts and names are representation); S (the resolved result makes both terms identical) is "
-        "not proved and is decided by the oracle",
+        "proved against the first-order reading of Spec/FOSubst.lean (a tail-variable cell denotes its variable; counts, names and the sign of zero are representation): "
+        "E (earlier bindings kept), G (every unifier validating the prior set validates the result), C (a reported failure means no unifier extends the prior set), S (every "
+        "substitution validating the result unifies the operands; `$_`-free operands), hence `unify_mgu`: the solutions of the result are exactly the unifiers of the operands "
+        "among the solutions of the prior set; well-formedness is preserved so the theorems chain. Outside the theorems: existence of a solution of the result (acyclicity; "
+        "fails only in occurs-check situations, which the property excludes), termination (fuel), `$_` in the S direction (C09)",
         "oracle on the implementation (anon-free, function-free cases): success agrees with Robinson unification with occurs check under the prior "
         "substitution (occurs-check situations dropped); every earlier binding is kept verbatim; both operands resolve to the same term; the resolved "
         "values of all variables are a variant of the reference mgu under one variable bijection",
@@ -77,7 +78,7 @@ PROPS['C06'] = {
 
 PROPS['C07'] = {
     'module': 'SuironVerif.Props.C07',
-    'theorems': ['Suiron.C07.const_const_symm_partial', 'Suiron.C07.nonvar_var_forward_partial', 'Suiron.C07.empty_vs_nonempty_partial'],
+    'theorems': ['Suiron.C07.symmetric_values', 'Suiron.C07.symmetric_success', 'Suiron.C07.const_const_symm_partial', 'Suiron.C07.nonvar_var_forward_partial', 'Suiron.C07.empty_vs_nonempty_partial'],
     'oracles': ['C07'],
     'suites': {
         'quick': unify_runs('C07', 4000, [[], ['--anon'], ['--anon', '--renamed']], exhaustive=[(['--anon'], 1), (['--anon', '--renamed'], 1)]),
@@ -88,8 +89,9 @@ PROPS['C07'] = {
             "maps, as a rule head and a goal are), so list patterns and literal empty lists are seen as the engine sees them.",
     'design_ref': '5.7',
     'assumptions': [
-        "PARTIAL: the proved theorems cover the symmetric dispatch (constants, term-vs-variable forwarding, empty list vs list pattern); the full "
-        "statement (success iff, results variants) is stated in Props/C07.lean and not yet proved for the list/complex recursion",
+        "proved (well-formed, function-free, `$_`-free operands, any fuel): if A=B and B=A both succeed their results have exactly the same solutions (every variable the "
+        "same resolved value, up to the naming of what stays unbound); if one order succeeds with a solvable result the other does not report failure. Outside the "
+        "theorems: that the other order actually returns (termination) and operands containing `$_` - decided by the oracle",
         "oracle on the implementation: A=B and B=A succeed/fail/panic alike under the same prior substitution and resolve every variable to variants",
     ],
 }
@@ -591,14 +593,15 @@ LEVEL_TEXT = {
            'backtracking are decided by comparing captured stdout per request with the reference machine.',
     'C05': 'Proved in Lean for all nodes, knowledge bases, global states and fuel values: a request that answers none leaves an exhausted node, and an '
            'exhausted node answers none again with the global state (output, counter, ticks) unchanged, for any number of further requests.',
-    'C06': 'PARTIAL proof. Proved in Lean for all well-formed function-free operands, substitution sets, candidate unifiers and fuel: a successful unification keeps every '
-           'earlier binding verbatim (E); every unifier of the operands that validates the prior set also validates the result, i.e. the result binds no more than a most '
-           'general unifier (G); when such a unifier exists unification never reports failure (C); the result set is well formed again. Not proved: S (the resolved result '
-           'makes both operands identical) - decided on the implementation by a reference unifier over random sequences and all ordered pairs of a 60-term universe '
-           'under 10 prior sets, and by the correspondence with the model.',
-    'C07': 'PARTIAL proof: symmetric dispatch lemmas (constants; term facing a variable; empty list facing a list pattern) are proved for all inputs; the '
-           'full symmetry statement is decided on the implementation by running every generated pair in both orders (random + all ordered pairs of a '
-           '60-term universe under 10 priors) and by the model correspondence.',
+    'C06': 'Proved in Lean for all well-formed function-free operands, substitution sets, substitutions and fuel: a successful unification keeps every earlier binding verbatim '
+           '(E); the substitutions that validate the result are exactly the unifiers of the operands that validate the prior set (unify_mgu = G + S: the result is a most '
+           'general unifier extending the prior bindings); when such a unifier exists unification never reports failure (C); well-formedness is preserved. Outside the '
+           'theorems: existence of a solution of the result (acyclicity: fails only in occurs-check situations), termination, `$_` in the S direction - decided on the '
+           'implementation by a reference unifier over random sequences and all ordered pairs of a 60-term universe under 10 prior sets, and by the model correspondence.',
+    'C07': 'Proved in Lean (from the mgu theorems of C06) for well-formed, function-free, `$_`-free operands and every fuel: when A=B and B=A both succeed, a substitution '
+           'validates one result iff it validates the other (same resolved values up to the naming of unbound variables); when one order succeeds with a solvable result '
+           'the other order does not report failure. Termination of the other order and operands with `$_` are decided on the implementation by running every generated '
+           'pair in both orders (random + all ordered pairs of a 60-term universe under 10 priors, also after renaming apart) and by the model correspondence.',
     'C08': 'Proved in Lean, unconditionally (any operands, any set, any fuel, any sequence): if following bindings ends from every term before a successful '
            'unification it still does afterwards; unifying an unbound variable with a variable aliased to it returns the set unchanged. Ties to the code '
            'through the unify correspondence suite; the oracle walks the real substitution sets.',
